@@ -202,12 +202,13 @@ def property_clauses(ctx, case, tr):
         else:
             ds = float(np.linalg.norm(cur))
             off = pred - last
-            if abs(float(np.linalg.norm(off)) - ds) > 1e-12 * (1 + ds):
+            if abs(float(np.linalg.norm(off)) - ds) > 1e-12 * (1 + ds) + 8e-16 * (1 + float(np.linalg.norm(fam[mem]))):
                 return "prediction-offset", "secant prediction %d is offset by %g, current step length %g" % (i, np.linalg.norm(off), ds)
             if mem >= 1:
                 sec = fam[mem] - fam[mem - 1]
                 ns = float(np.linalg.norm(sec))
-                if ns > 0 and float(np.linalg.norm(off / ds - sec / ns)) > 1e-12:
+                # the offset is a difference of O(1) numbers: its direction is known to ~eps*|member|/|offset| (tiny steps after many shrinks)
+                if ns > 0 and float(np.linalg.norm(off / ds - sec / ns)) > 1e-12 + 8e-16 * (1 + float(np.linalg.norm(fam[mem]))) * (1 / ds + 1 / ns):
                     return "prediction-offset", "secant prediction %d is not along the secant through the last two members" % i
         if case.act(i) == "A":
             mem += 1
